@@ -170,7 +170,7 @@ def connected(st, a, b):
     return reach[a][b]
 
 
-def obligations(n, excl, with_orders=True, with_relabel=True, sep_na=None):
+def obligations(n, excl, with_orders=True, with_relabel=True, sep_na=None, orders=None, only_orders=False):
     """[(name, claim, constraints (negated property), structure)]"""
     st = Structure(n)
     labels = LABS[n][0]
@@ -195,9 +195,11 @@ def obligations(n, excl, with_orders=True, with_relabel=True, sep_na=None):
     obs.append(("fg_child", "a co-resident childless child under 25 without own partner shares the family unit of its parent(s) and their partner", pre + [z3.Or(child)], st))
     obs.append(("fg_nopath", "no pointer path => different family units; family unit within the household",
                 pre + [z3.Or([z3.And(ids[a] == ids[b], z3.Or(z3.Not(connected(st, a, b)), st.hh[a] != st.hh[b])) for a in range(n) for b in range(a + 1, n)])], st))
+    if only_orders:
+        obs = []
     if with_orders:
         # one obligation per row order (a single disjunction over all N! orders is much harder for z3)
-        for pi in list(itertools.permutations(range(n)))[1:]:
+        for pi in (list(itertools.permutations(range(n)))[1:] if orders is None else orders):
             ids2, a2, e2, _ = run_fg(st, labels, pi)
             obs.append((f"fg_order{list(pi)}", "the family-unit partition is the same for this row order as for the canonical one",
                         pre + a2 + [z3.Not(same_partition(ids, ids2, n))], st))
@@ -298,12 +300,43 @@ def run_obligations(ck, pid, n, excl, with_orders=True, with_relabel=True, sep_n
             _EXTRA.clear()
 
 
-def _run_obligations(ck, pid, n, excl, with_orders, with_relabel, sep_na, timeout, variant):
+def _orders_chunk(ck, arg):
+    """worker: the row-order obligations of a subset of the N! permutations"""
+    pid, n, excl, perms, timeout, variant = arg
+    for lab, kw in variants():
+        if lab == variant:
+            _EXTRA.clear()
+            _EXTRA.update(kw)
+    try:
+        _run_obligations(ck, pid, n, excl, True, False, None, timeout, variant, orders=perms)
+    finally:
+        _EXTRA.clear()
+
+
+def run_order_obligations_parallel(ck, pid, n, excl, timeout=600):
+    """definitions once, the N!-1 row orders spread over worker processes (N=5: 119 orders)"""
+    perms = list(itertools.permutations(range(n)))[1:]
+    for lab, kw in variants():
+        _EXTRA.clear()
+        _EXTRA.update(kw)
+        try:
+            _run_obligations(ck, pid, n, excl, False, False, None, timeout, lab)
+        except R.Unsupported as e:
+            ck.not_encoded[f"fg_id_numpy N={n}"] = str(e)[:160]
+            ck.inconclusive.append(f"fg_id_numpy N={n}: not encodable ({str(e)[:100]})")
+            continue
+        finally:
+            _EXTRA.clear()
+        chunks = [(pid, n, tuple(excl), perms[i::common.JOBS], timeout, lab) for i in range(common.JOBS) if perms[i::common.JOBS]]
+        common.run_parallel(ck, _orders_chunk, chunks)
+
+
+def _run_obligations(ck, pid, n, excl, with_orders, with_relabel, sep_na, timeout, variant, orders=None):
     rnd = random.Random(common.SEED)
     tag = f" params@{variant}" if variant else ""
     try:
-        k = validate_encoding(min(n, 4), rnd)
-        obs, funcs = obligations(n, excl, with_orders, with_relabel, sep_na)
+        k = validate_encoding(min(n, 4), rnd) if orders is None else 0
+        obs, funcs = obligations(n, excl, with_orders, with_relabel, sep_na, orders=orders, only_orders=orders is not None)
     except R.Unsupported as e:
         if "raises on every path" not in str(e):
             raise
